@@ -131,7 +131,8 @@ def run_rebuild(case):
         mpaths = []
         for ti, tree in enumerate(trees):
             proot = alpha.materialize(tree, os.path.join(sbx, "orig%d" % ti))
-            mpath = os.path.join(mdir, "t%d.torrent" % ti)
+            # (the second metafile of a batch carries an upper-case extension)
+            mpath = os.path.join(mdir, "t%d.%s" % (ti, "TORRENT" if ti == 1 else "torrent"))
             sub = {k: v2 for k, v2 in dict(case, tree=tree).items() if k != "meta_name" or (ti == 0 and v2 is not None)}
             st = build_metafile(sub, proot, mpath)
             if st != "ok":
@@ -139,6 +140,9 @@ def run_rebuild(case):
                 return rec
             mpaths.append(mpath)
             rm(os.path.join(sbx, "orig%d" % ti))
+        if len(trees) > 1:                # things a metafile directory may also hold
+            write_file(os.path.join(mdir, "notes.txt"), b"not a metafile")
+            write_file(os.path.join(mdir, "sub", "nested.torrent.bak"), b"ignored")
         # 2. search directories with candidates in imposed order
         sdirs = [os.path.join(sbx, "search%d" % i) for i in range(case.get("nsearch", 1))]
         for d in sdirs:
@@ -204,7 +208,7 @@ def run_rebuild(case):
         try:
             with _SortedListing():
                 from torrentfile.rebuild import Assembler
-                runs = 2 if case.get("repeat") else 1
+                runs = (3 if case.get("repeat") == 3 else 2) if case.get("repeat") else 1
                 rec["runs"] = runs
                 marg = [mdir] if len(trees) > 1 else [mpaths[0]]
                 if case.get("rel_paths"):      # every path spelled relative to the working directory
